@@ -21,6 +21,16 @@ SAMPLE_OPS = ["addr", "fbreg", "plus_uconst", "call_frame_cfa", "reg5", "breg7",
               "consts", "bregx", "GNU_entry_value", "entry_value", "implicit_value"]
 
 
+# a copy of a DWARF value (binding read, dup, branch, sub-expression) shows what the value shows — in both views
+COPY_LAWS = []
+for _m in ("", "raw "):
+    COPY_LAWS += dwcorr.copy_laws(_m + "DIE", _m + "entry", ["offset", "label", "[child offset]", "[attribute label]", "[parent offset]", "[root offset]"]) \
+        + dwcorr.copy_laws(_m + "attribute", _m + "entry attribute",
+                           ["label", "form", "[?(label == (DW_AT_name, DW_AT_type, DW_AT_decl_line, DW_AT_byte_size, DW_AT_external)) value]"]) \
+        + dwcorr.copy_laws(_m + "unit", _m + "unit", ["offset", "[root offset]", "[entry offset]"]) \
+        + dwcorr.copy_laws(_m + "Dwarf", _m.strip() or "cooked", ["[unit offset]", "[entry offset]"])
+
+
 def at_laws(nm):
     return [("@AT_%s = attribute ?AT_%s cooked value" % (nm, nm), "entry ?([@AT_%s] != [attribute ?AT_%s cooked value])" % (nm, nm)),
             ("?AT_%s implies attribute ?AT_%s yields" % (nm, nm), "entry ?AT_%s !(attribute ?AT_%s)" % (nm, nm)),
@@ -127,6 +137,7 @@ def run(ctx):
                 if nm:
                     laws += at_laws(nm)
             laws += at_laws("frame_base") + at_laws("ranges")          # mostly absent
+            laws += COPY_LAWS
             laws += label_laws([forest.DW_TAG.name(t) for t in sorted(tags) if forest.DW_TAG.name(t)] + ["label"],
                                [forest.DW_FORM.name(f) for f in sorted(forms) if forest.DW_FORM.name(f)] + ["data16"],
                                ["addr", "fbreg", "plus_uconst", "call_frame_cfa", "reg5", "lit0", "stack_value", "breg7", "deref"])
@@ -183,7 +194,7 @@ def run(ctx):
                     ("no imported_unit among cooked children", "entry child ?TAG_imported_unit ?AT_import")]
             for nm in SAMPLE_ATS:
                 laws += at_laws(nm)
-            laws += label_laws(SAMPLE_TAGS, SAMPLE_FORMS, SAMPLE_OPS)
+            laws += label_laws(SAMPLE_TAGS, SAMPLE_FORMS, SAMPLE_OPS) + COPY_LAWS
             if run_laws(ctx, fs, s, laws, None, "C06-samples", counts):
                 s_ok += 1
     finally:
